@@ -101,7 +101,7 @@ Section Paraxial.
   Definition EPD (ss : list psurf) (ap : aptype) (v : T) : T :=
     match ap with
     | EPDt => v
-    | FNOt => div (f2 ss) v
+    | FNOt => div (abs_ (f2 ss)) v
     | NAt =>
         match ss with
         | obj :: _ =>
@@ -136,7 +136,7 @@ Section Paraxial.
     mul (ofZ 2) (add yi (mul ui (XPL ss))).
 
   Definition FNO ss ap v : T :=
-    match ap with FNOt => v | _ => div (f2 ss) (EPD ss ap v) end.
+    match ap with FNOt => v | _ => div (abs_ (f2 ss)) (EPD ss ap v) end.
 
   Definition nth_yu (l : list (T * T)) (i : nat) : T * T := nth i l (nan_, nan_).
 
